@@ -28,6 +28,8 @@ spins, not whatever callee the alarm happened to interrupt).
 """
 from __future__ import annotations
 
+import struct
+
 from .. import core
 from ..harness import c17_beds as B
 from ..harness import c17_wire as W
@@ -71,9 +73,20 @@ def _gen_mutants(bed_name: str, quick: bool, bed) -> list[tuple]:
         seeds(W.l2cap_sig_seeds('lesig'))
         out.extend(W.short_strings('lesig', full2))
         out.extend(B.l2cap_frame_mutants(W.h('0a 0300'), []))
-    elif bed_name == 'le_coc':
+    elif bed_name in ('le_coc', 'le_coc_crossed'):
         seeds(W.le_coc_seeds(bed.dyn_rx_cid, bed.v_mtu, bed.v_mps))
         out.extend(W.short_strings('dyn', full2))
+        # Disconnection Requests that name the victim's endpoint: only the one whose SCID is the attacker's endpoint
+        # of that channel is a valid disconnect
+        for label, dcid, scid in (
+            ('valid', bed.dyn_cid, bed.dyn_rx_cid),
+            ('scid_is_victims_own', bed.dyn_cid, bed.dyn_cid),
+            ('scid_unknown', bed.dyn_cid, 0x007F),
+            ('scid_zero', bed.dyn_cid, 0),
+            ('dcid_is_attackers', bed.dyn_rx_cid, bed.dyn_rx_cid),
+            ('swapped', bed.dyn_rx_cid, bed.dyn_cid),
+        ):
+            out.append((f'lecoc.disconnection_req|{label}', 'lesig', bytes([0x06, 0x35, 4, 0]) + struct.pack('<HH', dcid, scid)))
     elif bed_name == 'cl_sig':
         seeds(W.l2cap_sig_seeds('sig'))
         out.extend(W.short_strings('sig', full2))
@@ -495,7 +508,7 @@ def _hex_short(data) -> str:
 # ---------------------------------------------------------------------------
 # entry points
 # ---------------------------------------------------------------------------
-BED_ORDER = ['hfp_hf', 'hfp_ag', 'rfcomm', 'avctp', 'avdtp', 'sdp', 'sdp_client', 'cl_sig', 'hci_cl', 'hci_le', 'hci_cl_stream', 'hci_le_stream', 'le_sig', 'le_coc', 'smp', 'att_server', 'att_client',
+BED_ORDER = ['hfp_hf', 'hfp_ag', 'rfcomm', 'avctp', 'avdtp', 'sdp', 'sdp_client', 'cl_sig', 'hci_cl', 'hci_le', 'hci_cl_stream', 'hci_le_stream', 'le_sig', 'le_coc', 'le_coc_crossed', 'smp', 'att_server', 'att_client',
              'att_client_pending']
 
 
